@@ -121,6 +121,7 @@ func setResponseHeaderValue'''),
 func New() *Cache {
 	return shared
 }'''),
+ 'tags-inverted': ('tester/tester.go', 'ALL:if metadata.Skip || (len(metadata.Tags) > 0 && !metadata.MatchTags(t.config.Tags)) {', 'if metadata.Skip || metadata.MatchTags(t.config.Tags) {'),
  # harmless refactorings
  'harmless-reorder': ('interpreter/subroutine.go', '''	regex := i.ctx.RegexMatchedValues
 	local := i.localVars
